@@ -3,9 +3,12 @@
 import os, sys
 sys.path.insert(0, os.path.dirname(os.path.dirname(os.path.abspath(__file__))))
 from lib import vlib
-TRANSLATORS = ["eclio"]
+TDIR = os.path.join(os.path.dirname(os.path.dirname(os.path.abspath(__file__))), "translate")
+TRANSLATORS = sorted(f[:-3] for f in os.listdir(TDIR) if f.endswith(".py") and f not in ("__init__.py", "common.py"))
 ok, info, errors = vlib.regenerate(TRANSLATORS)
 for e in errors:
     print("translator error:", e)
 print("generated:", ", ".join(info))
+from lib import gen_driver
+gen_driver.main()
 sys.exit(0 if ok else 1)
